@@ -324,7 +324,8 @@ func runC06(c *Ctx) {
 	if tto != nil {
 		callers := p.callers(tto)
 		for _, cs := range callers {
-			ok := cs.Parent().Name() == "txCreator"
+			// txCreator itself, or a private part of it (a function used by nothing else)
+			ok := p.partOfNamed(cs.Parent(), "txCreator")
 			c.Check("C06-R2", "txToOutputs-caller:"+fnName(cs.Parent()), cs.Pos(), ok, "txToOutputs (coin selection + signing) is called outside the serialising txCreator goroutine: two requests can pick the same coin")
 		}
 		c.Floor("C06-R2", "callers of txToOutputs", len(callers), 1)
